@@ -163,13 +163,11 @@ class Child:
                 md.library_name, md.library_hash_name, md.module_name = enc(op[2]), enc(op[3]), enc(op[4])
             else:
                 md = self.defs[op[1]]
-            fd, path = tempfile.mkstemp(prefix="idbw-", dir=os.environ.get("IDB_DRIVER_TMP"))
-            os.close(fd)
-            try:
-                rc = self.writer.verif_idb_write(enc(path), C.byref(md))
-                data = open(path, "rb").read()
-            finally:
-                os.unlink(path)
+            n = C.c_int(0)
+            buf = self.writer.verif_idb_write_mem(C.byref(md), C.byref(n))
+            data = C.string_at(buf, n.value)
+            self.writer.verif_idb_free(buf)
+            rc = 0
             return {"rc": rc, "text": data.decode("latin-1")}
         if k == "def":
             md = self.defs[op[1]]
@@ -268,6 +266,10 @@ def main():
         writer = C.CDLL(sys.argv[5])
         writer.verif_idb_write.argtypes = [C.c_char_p, C.POINTER(MD)]
         writer.verif_idb_write.restype = C.c_int
+        writer.verif_idb_write_mem.argtypes = [C.POINTER(MD), C.POINTER(C.c_int)]
+        writer.verif_idb_write_mem.restype = C.c_void_p
+        writer.verif_idb_free.argtypes = [C.c_void_p]
+        writer.verif_idb_free.restype = None
     job = json.load(open(jobs))
     timeout = int(job.get("timeout", 5))
     res = {}
